@@ -96,9 +96,12 @@ for Crossbeam<'a, ItemType, BUFFER_SIZE, MAX_STREAMS> {
 
     #[inline(always)]
     fn send(&self, item: ItemType) -> keen_retry::RetryConsumerResult<(), ItemType, ()> {
+        #[cfg(feature = "verif")] crate::verif::yield_point("uni.xb.send.before_len");
         match self.tx.len() {
             len_before if len_before <= 2 => {
+                #[cfg(feature = "verif")] crate::verif::yield_point("uni.xb.send.before_try_send");
                 let ret = self.tx.try_send(item);
+                #[cfg(feature = "verif")] crate::verif::yield_point("uni.xb.send.after_try_send");
                 self.streams_manager.wake_stream(0);
                 ret
             },
@@ -175,6 +178,7 @@ Crossbeam<'a, ItemType, BUFFER_SIZE, MAX_STREAMS> {
 
     #[inline(always)]
     fn consume(&self, stream_id: u32) -> Option<ItemType> {
+        #[cfg(feature = "verif")] crate::verif::yield_point("uni.xb.consume.before_try_recv");
         match self.rx.try_recv() {
             Ok(event) => {
                 Some(event)
